@@ -14,7 +14,7 @@ from vlib.nlp import NLP, close, DMa
 
 ID = "C16"
 LEVEL = "exploration"
-BUDGET = {"quick": (8, 70), "thorough": (16, 1000)}
+BUDGET = {"quick": (8, 70), "thorough": (16, 4000)}
 NPTS = 4
 RULE = ("Two generated families. formula: a generated ODE (vector/matrix states, controls, parameters, variables, explicit t), optional higher-order control (order 1..3) and B-spline variable "
         "(order 1..4), and a generated nonlinear vector-valued expression e(x,t,p,v, chain top member, spline); ocp.der(e) evaluated numerically at 4 random points must equal the Richardson-extrapolated "
